@@ -238,19 +238,22 @@ fn any_obj(o: &Obj, f: &dyn Fn(&Obj) -> bool) -> bool { f(o) || o.o.as_ref().map
 fn strings(o: &Obj) -> Vec<&String> { o.s.iter().chain(o.astr.iter().flatten()).collect() }
 fn is_empty_obj(o: &Obj) -> bool { *o == Obj::default() }
 
+fn map_strings(o: &mut Obj, f: &dyn Fn(&mut String)) {
+    if let Some(s) = o.s.as_mut() { f(s); }
+    if let Some(v) = o.astr.as_mut() { for s in v.iter_mut() { f(s); } }
+    if let Some(n) = o.o.as_mut() { map_strings(n, f); }
+    if let Some(v) = o.a.as_mut() { for n in v.iter_mut() { map_strings(n, f); } }
+}
+
 pub fn eval(ctx: &Ctx, w: &Obj) -> Verdict {
     let j = JObj { v: w.clone() };
     let text = match catch(|| j.to_json_string()) { Ok(t) => t, Err((m, loc)) => return Verdict::fail(format!("panic:to_json_string:{}", m), loc) };
     let mut problems: Vec<(String, String)> = vec![];
     // input classes behind listed findings
     let non_ascii = any_obj(w, &|o| strings(o).iter().any(|s| !s.is_ascii()));
-    let bracket_in_nested_string = any_obj(w, &|o| o.o.as_ref().map(|n| any_obj(n, &|x| strings(x).iter().any(|s| s.contains('}') || s.contains('{') || s.contains(']') || s.contains('[')))).unwrap_or(false)
-        || o.a.as_ref().map(|a| a.iter().any(|n| any_obj(n, &|x| strings(x).iter().any(|s| s.contains('}') || s.contains('{') || s.contains(']') || s.contains('['))))).unwrap_or(false)
-        || o.astr.as_ref().map(|a| a.iter().any(|s| s.contains(']') || s.contains('['))).unwrap_or(false));
-    let empty_object = any_obj(w, &is_empty_obj);
-    let classify = |generic: String| -> String {
-        if non_ascii { "json-nonascii-string".to_string() } else if empty_object { "json-empty-object".to_string() } else if bracket_in_nested_string { "json-bracket-in-nested-string".to_string() } else { generic }
-    };
+    // a failure on an input with non-ASCII strings is attributed to the listed finding only if the same input with every non-ASCII
+    // character replaced by 'x' passes; if that copy fails as well, its (different) failure is what is reported
+    let classify = |generic: String| -> String { if non_ascii { "json-nonascii-string".to_string() } else { generic } };
     match catch(|| JObj::parse_json(&text)) {
         Err((m, loc)) => problems.push((classify(format!("panic:parse_json:{}:{}", super::common::panic_module(&loc), m)), format!("panic at {} on the library's own output: {}", loc, crate::fw::util::lossy(text.as_bytes(), 300)))),
         Ok(Err(e)) => problems.push((classify("parse-rejects-own-output".to_string()), format!("Err({:?}) for {}", e, crate::fw::util::lossy(text.as_bytes(), 300)))),
@@ -262,7 +265,7 @@ pub fn eval(ctx: &Ctx, w: &Obj) -> Verdict {
     }
     let neg = any_obj(w, &|o| o.i.as_ref().map(|t| t.starts_with('-') || t.len() > 18).unwrap_or(false) || o.f.map(|b| f64::from_bits(b) < 0.0).unwrap_or(false));
     let structural = any_obj(w, &|o| strings(o).iter().any(|s| s.chars().any(|c| "{}[],:".contains(c))));
-    let empties = empty_object || any_obj(w, &|o| o.a.as_ref().map(|a| a.is_empty()).unwrap_or(false) || o.astr.as_ref().map(|a| a.is_empty()).unwrap_or(false) || o.ai64.as_ref().map(|a| a.is_empty()).unwrap_or(false));
+    let empties = any_obj(w, &is_empty_obj) || any_obj(w, &|o| o.a.as_ref().map(|a| a.is_empty()).unwrap_or(false) || o.astr.as_ref().map(|a| a.is_empty()).unwrap_or(false) || o.ai64.as_ref().map(|a| a.is_empty()).unwrap_or(false));
     let dp = depth(w);
     let mut classes = vec![];
     if neg { classes.push("negative-or-extreme-number"); }
@@ -270,6 +273,11 @@ pub fn eval(ctx: &Ctx, w: &Obj) -> Verdict {
     if empties { classes.push("empty-object-or-array"); }
     if dp >= 3 { classes.push("depth>=2"); }
     if non_ascii { classes.push("non-ascii-string"); }
+    if non_ascii && problems.iter().any(|(sig, _)| sig == "json-nonascii-string") {
+        let mut ascii = w.clone();
+        map_strings(&mut ascii, &|s: &mut String| { if !s.is_ascii() { *s = s.chars().map(|c| if c.is_ascii() { c } else { 'x' }).collect(); } });
+        if let Verdict::Fail { sig, detail } = eval(ctx, &ascii) { return Verdict::fail(sig, format!("(on the ASCII copy of an input with non-ASCII strings) {}", detail)); }
+    }
     ctx.judge(problems, neg || structural || empties || dp >= 3, classes)
 }
 
